@@ -1496,11 +1496,14 @@ fn post_fluent(m: &mut Model, t: &CT, style: u8, uv: &[VarId]) {
             m.postall(vec![bct(t, uv, false)]);
         }
         (5, CT::And(a, b)) => {
-            let c = sp::and_all(vec![bct(a, uv, false), bct(b, uv, false)]).unwrap();
+            // (`all_of` / `and_all` and `any_of` / `or_all` are aliases: both spellings are used)
+            let v = vec![bct(a, uv, false), bct(b, uv, false)];
+            let c = if uv.len() % 2 == 0 { sp::all_of(v) } else { sp::and_all(v) }.unwrap();
             m.new(c);
         }
         (5, CT::Or(a, b)) => {
-            let c = sp::any_of(vec![bct(a, uv, false), bct(b, uv, false)]).unwrap();
+            let v = vec![bct(a, uv, false), bct(b, uv, false)];
+            let c = if uv.len() % 2 == 0 { sp::any_of(v) } else { sp::or_all(v) }.unwrap();
             m.new(c);
         }
         (5, _) => {
@@ -1992,6 +1995,56 @@ struct SolV {
     full: String,
     /// values of the float variables of the `Con::Float` units: (unit index, values in creation order)
     fl: Vec<(usize, Vec<XV>)>,
+    /// an accessor of `Solution` that disagrees with the indexed value `solution[x]`
+    acc: Option<String>,
+}
+
+/// every way of reading a variable out of a `Solution` gives the value `solution[x]` gives
+/// (`get_int`, `try_get_*`, `as_*`, `get_*_unchecked`, `get::<T>`, `try_get::<T>`, `get_bool`, `get_values*`)
+fn accessors_agree(s: &Solution, vars: &[VarId]) -> Option<String> {
+    for (k, v) in vars.iter().enumerate() {
+        let r = guarded(|| -> Option<String> {
+            match s[*v] {
+                Val::ValI(i) => {
+                    if s.try_get_int(*v).ok() != Some(i) { return Some(format!("try_get_int != {i}")); }
+                    if s.get_int(*v) != i { return Some(format!("get_int != {i}")); }
+                    if s.get_int_unchecked(*v) != i { return Some(format!("get_int_unchecked != {i}")); }
+                    if s.as_int(*v) != Some(i) { return Some(format!("as_int != Some({i})")); }
+                    if s.as_float(*v).is_some() { return Some("as_float is Some on an integer value".into()); }
+                    if s.try_get_float(*v).is_ok() { return Some("try_get_float is Ok on an integer value".into()); }
+                    let g: i32 = s.get(*v);
+                    if g != i { return Some(format!("get::<i32> != {i}")); }
+                    let tg: Result<i32, _> = s.try_get(*v);
+                    if tg.ok() != Some(i) { return Some(format!("try_get::<i32> != {i}")); }
+                    let b = match i { 0 => Some(false), 1 => Some(true), _ => None };
+                    if s.as_bool(*v) != b { return Some(format!("as_bool on {i}")); }
+                    if s.get_bool(*v).ok() != b { return Some(format!("get_bool on {i}")); }
+                    if s.try_get_bool(*v).ok() != b { return Some(format!("try_get_bool on {i}")); }
+                }
+                Val::ValF(f) => {
+                    if s.try_get_float(*v).ok().map(f64::to_bits) != Some(f.to_bits()) { return Some(format!("try_get_float != {f:?}")); }
+                    if s.get_float(*v).to_bits() != f.to_bits() { return Some(format!("get_float != {f:?}")); }
+                    if s.get_float_unchecked(*v).to_bits() != f.to_bits() { return Some(format!("get_float_unchecked != {f:?}")); }
+                    if s.as_float(*v).map(f64::to_bits) != Some(f.to_bits()) { return Some(format!("as_float != Some({f:?})")); }
+                    if s.as_int(*v).is_some() { return Some("as_int is Some on a float value".into()); }
+                    if s.try_get_int(*v).is_ok() { return Some("try_get_int is Ok on a float value".into()); }
+                    let g: f64 = s.get(*v);
+                    if g.to_bits() != f.to_bits() { return Some(format!("get::<f64> != {f:?}")); }
+                }
+            }
+            None
+        });
+        match r {
+            None => return Some(format!("variable #{k}: an accessor panicked on a value of its own kind")),
+            Some(Some(why)) => return Some(format!("variable #{k}: {why}")),
+            Some(None) => {}
+        }
+    }
+    let same = |a: &[Val], b: &[Val]| a.len() == b.len() && a.iter().zip(b).all(|(x, y)| XV::of(*x).show() == XV::of(*y).show());
+    let want: Vec<Val> = vars.iter().map(|v| s[*v]).collect();
+    if !same(&s.get_values(vars), &want) { return Some("get_values differs from indexing".into()); }
+    if !same(&s.get_values_iter(vars.iter().copied()).collect::<Vec<_>>(), &want) { return Some("get_values_iter differs from indexing".into()); }
+    None
 }
 
 #[derive(Clone, Copy, Debug, PartialEq)]
@@ -2081,6 +2134,7 @@ fn run_call(case: &Case, vo: &[usize], co: &[usize], alt: Option<&Alt>, call: Ca
                 res: rv.iter().map(|v| XV::of(s[*v])).collect(),
                 full: key,
                 fl: fl.iter().map(|(i, vs)| (*i, vs.iter().map(|v| XV::of(s[*v])).collect())).collect(),
+                acc: accessors_agree(s, &uv).or_else(|| accessors_agree(s, &fl.iter().flat_map(|(_, vs)| vs.iter().copied()).collect::<Vec<_>>())),
             }
         };
         let one = |r: Result<Solution, SolverError>| match r {
@@ -2754,6 +2808,13 @@ fn check_call(out: &mut Out, line: usize, case: &Case, truth: &[Vec<i64>], c: &C
         out.fail(line, "C02", &t, format!("constraint constructor returned {e} on a well-formed model"));
         return;
     }
+    if let Some(why) = sols.iter().find_map(|s| s.acc.clone()) {
+        // (what the caller reads is not the assignment that was found)
+        out.fail(line, "C01", "-", format!("{nm}: Solution accessors disagree: {why}"));
+        if case.cons.iter().any(|k| matches!(k, Con::Float { .. })) {
+            out.fail(line, "C06", "-", format!("{nm}: Solution accessors disagree: {why}"));
+        }
+    }
     if let Some(why) = sols.iter().find_map(|s| unsound(case, &c.funs, s, tg.q)) {
         let t = tg.tag(c, call);
         out.fail(line, "C01", &t, format!("{nm}: {why}"));
@@ -3196,6 +3257,11 @@ impl<'a> Gen<'a> {
         }
     }
     fn cmp(&mut self) -> CT {
+        // the shapes with their own posting arms: a variable against a constant, either side
+        if self.r.chance(1, 7) {
+            let (v, k, op) = (Ex::V(self.var()), Ex::C(self.konst()), *self.r.pick(&Cmp::ALL));
+            return if self.r.chance(1, 2) { CT::Cmp(k, op, v) } else { CT::Cmp(v, op, k) };
+        }
         let dl = self.r.range(0, 2) as u32;
         let dr = self.r.range(0, 1) as u32;
         let mut l = self.ex(dl, false);
